@@ -160,7 +160,7 @@ class CompoundQuery(qcore.Query):
                 while j < len(subqueries):
                     if q.overlaps(subqueries[j]):
                         qq = subqueries.pop(j)
-                        q = q.merge(qq, intersect=self.intersect_merge)
+                        q = q.merge(qq, intersect=isand)
                     else:
                         j += 1
                 q = subqueries[i] = q.normalize()
